@@ -304,6 +304,32 @@ NestSpecs(in) == <<
     <<[sub |-> in.strata[1].sub, mu |-> 2]>>,
     [s \in 1..Len(in.strata) |-> [sub |-> in.strata[s].sub, mu |-> 2 + ((s + 1) % 2)]] >>
 
+\* cross-nested logit on the full choice set, V = ln w, allocation parameters alpha[id] of each nest
+\* (rationals, 0 = not a member):
+\*   S_m = sum_j alpha_jm^mu_m w_j^mu_m
+\*   P(i) = sum_m alpha_im^mu_m w_i^mu_m S_m^(1/mu_m - 1) / sum_m S_m^(1/mu_m)
+CnlMember(nest, id) == ~IsZero(nest.alpha[id])
+CnlPart(in, fam, x, nest, id) ==
+    QMul(QPowInt(nest.alpha[id], nest.mu), I(IPow(W(fam, x, in.alts[id]), nest.mu)))
+CnlSum(in, fam, x, nest) ==
+    LET ids == SortedSeq({id \in DOMAIN in.alts : CnlMember(nest, id)}) IN
+    SumSeq([i \in 1..Len(ids) |-> CnlPart(in, fam, x, nest, ids[i])])
+CnlProb(in, fam, ind, nests) ==
+    SDiv(SSumSeq([m \in 1..Len(nests) |->
+                    IF CnlMember(nests[m], ind.choice)
+                    THEN SMul(CnlPart(in, fam, ind.x, nests[m], ind.choice),
+                              App("pow", <<CnlSum(in, fam, ind.x, nests[m]), Q(1 - nests[m].mu, nests[m].mu)>>))
+                    ELSE Zero]),
+         SSumSeq([m \in 1..Len(nests) |-> App("pow", <<CnlSum(in, fam, ind.x, nests[m]), Q(1, nests[m].mu)>>)]))
+\* the structure tried on an instance: by rank of the id, odd ranks belong to the first nest only, ranks
+\* divisible by 4 to both (1/2, 1/2), the other even ranks to the second nest only; mu = 2 and 3
+CnlSpec(in) ==
+    LET rank(id) == Cardinality({j \in DOMAIN in.alts : j <= id})
+        a1 == [id \in DOMAIN in.alts |-> IF rank(id) % 2 = 1 THEN One ELSE IF rank(id) % 4 = 0 THEN Q(1, 2) ELSE Zero]
+        a2 == [id \in DOMAIN in.alts |-> QSub(One, a1[id])]
+    IN  SelectSeq(<<[mu |-> 2, alpha |-> a1], [mu |-> 3, alpha |-> a2]>>,
+                  LAMBDA nest : \E id \in DOMAIN in.alts : CnlMember(nest, id))
+
 ---------------------------------------------------------------------------
 (* Properties of the model, checked by TLC *)
 TypeOK == /\ ValidInst(inst)
@@ -380,6 +406,13 @@ Emitted ==
                     [nests |-> NestJson(specs[q]),
                      fams  |-> [fam \in Fams |->
                                   [p  |-> [i \in 1..Len(inds) |-> NestedProb(inst, fam, inds[i], specs[q])],
-                                   ll |-> LogLik([i \in 1..Len(inds) |-> NestedProb(inst, fam, inds[i], specs[q])])]]]]]
+                                   ll |-> LogLik([i \in 1..Len(inds) |-> NestedProb(inst, fam, inds[i], specs[q])])]]]],
+     cnl    |-> LET nests == CnlSpec(inst) IN
+                [nests |-> [m \in 1..Len(nests) |->
+                              [mu |-> nests[m].mu,
+                               alpha |-> [i \in 1..Len(ids) |-> <<ids[i], nests[m].alpha[ids[i]].n, nests[m].alpha[ids[i]].d>>]]],
+                 fams  |-> [fam \in Fams |->
+                              [p  |-> [i \in 1..Len(inds) |-> CnlProb(inst, fam, inds[i], nests)],
+                               ll |-> LogLik([i \in 1..Len(inds) |-> CnlProb(inst, fam, inds[i], nests)])]]]]
 EmitInv == (Mode = "full" /\ pc = "done") => PrintT(ToJson(Emitted))
 =============================================================================
